@@ -913,6 +913,9 @@ fn plant_templates(rng: &mut Rng, prog: &mut Prog, goals: &mut Vec<Goal>) {
             }
             heads.push(h);
         }
+        // "delayed" worlds: every impl has a where-clause, so that no strand is a plain fact and answers arrive in
+        // declaration order
+        let delayed = rng.coin(50);
         for (a, b) in &heads {
             let self_ty = Ty::Adt("P2".into(), vec![a.clone(), b.clone()]);
             let mut params = vec![];
@@ -925,7 +928,7 @@ fn plant_templates(rng: &mut Rng, prog: &mut Prog, goals: &mut Vec<Goal>) {
                     wcs.push(pr(var(q), "Mk"));
                 }
             }
-            if rng.coin(40) {
+            if rng.coin(40) || delayed && wcs.is_empty() {
                 // a ground where-clause that holds: the strand answers later than a plain fact
                 wcs.push(pr(k(*rng.pick(&mk_holds)), "Mk"));
             }
